@@ -126,7 +126,7 @@ def lean_phase(pid, plugin, tier, ev):
     breaks = []
     gen = os.path.join(LEAN, "ArvVerif", "Gen")
     os.makedirs(gen, exist_ok=True)
-    with Lock(".lean.lock"):
+    with Lock(f".lean.{pid}.lock"):  # per property: targets of different properties are disjoint
         # 1 translate
         spec = os.path.join(VERIF, "harness", "props", f"{pid}.facts.json")
         facts_out = os.path.join(gen, f"Facts{pid}.lean")
